@@ -184,6 +184,7 @@ func (cr *chainRun) checkReply(run *caseRun, reply []byte) replyInfo {
 	hit := run.hitAtTerm
 	hitR := run.hitRBytes
 	hitUp := run.hitUpOptNonNil
+	injected := run.injectedFg
 	run.mu.Unlock()
 
 	switch {
@@ -198,12 +199,17 @@ func (cr *chainRun) checkReply(run *caseRun, reply []byte) replyInfo {
 	}
 
 	viol := func(key, what string) {
-		if fgDelivered && len(c.Up.Opts) > 1 {
-			key += "~upstream-multi-opt"
-			what += " [hostile class: the upstream reply carried " + fmt.Sprint(len(c.Up.Opts)) + " OPT records]"
-		}
 		rep.Violation(key, what, cr.witness(run, map[string]any{"reply_to_client": hex.EncodeToString(reply), "path": info.path}))
 	}
+	// Two situations put a surplus OPT into R() that query_context cannot have
+	// popped: (a) the scripted upstream reply carried more than one OPT - outside
+	// the property's quantifier ("no OPT / OPT with any options": at most one);
+	// (b) the harness plugin $inject appended one itself. For those the
+	// client-side verdicts that presuppose a clean R() (OPT count, DO mirror,
+	// option sets) are not judged. What stays in scope: no OPT is ever stored in
+	// the cache, and no OPT's TTL field is rewritten by ttl / ageing / truncation.
+	multiUp := fgDelivered && len(c.Up.Opts) > 1
+	surplus := multiUp || injected
 
 	// what the terminal saw when a response was already installed (a cached answer)
 	if hit {
@@ -248,19 +254,44 @@ func (cr *chainRun) checkReply(run *caseRun, reply []byte) replyInfo {
 		wantFlags = 0x8000
 	}
 	countOK := n == want && an == 0 && ns == 0
-	if !countOK {
-		viol("opt-count-down", fmt.Sprintf("reply carries %d OPT records (answer %d, authority %d, additional %d) but the client query had %d", n, an, ns, ar, want))
-		// even then no OPT may have been rewritten by ttl / cache ageing / truncation
+	if surplus {
+		if multiUp {
+			rep.Count("out_of_quantifier_multi_opt_reply_not_judged", 1)
+		}
+		if injected {
+			rep.Count("harness_injected_opt_reply_not_judged", 1)
+		}
+		// every OPT that reaches the client must still carry the TTL field it was
+		// created with: mosdns' own, the injected one, or one the upstream sent.
+		// (Only the low 24 bits: Pack rewrites the extended-rcode byte of the last OPT.)
 		for _, o := range opts {
 			low := o.TTL & 0x00FFFFFF
 			ok := low == wantFlags
-			for _, uo := range c.Up.Opts {
-				if low == uo.ttl()&0x00FFFFFF {
-					ok = true
+			if multiUp {
+				for _, uo := range c.Up.Opts {
+					if low == uo.ttl()&0x00FFFFFF {
+						ok = true
+					}
 				}
 			}
+			if injected && low == c.Inject.ttl()&0x00FFFFFF {
+				ok = true
+				rep.Count("injected_opt_reached_client_with_ttl_field_intact", 1)
+			}
 			if !ok {
-				viol("opt-ttl-altered", fmt.Sprintf("an OPT in the reply has TTL field %#08x: neither mosdns' own (%#x) nor any OPT the upstream sent", o.TTL, wantFlags))
+				viol("opt-ttl-altered", fmt.Sprintf("an OPT in the reply has TTL field %#08x: neither mosdns' own (%#x), nor the OPT a plugin put into R() (%v), nor any OPT the upstream sent (path %s, truncated=%v)", o.TTL, wantFlags, c.Inject, info.path, info.truncated))
+			}
+		}
+		if info.truncated {
+			rep.Count("truncated_replies", 1)
+		}
+		return info
+	}
+	if !countOK {
+		viol("opt-count-down", fmt.Sprintf("reply carries %d OPT records (answer %d, authority %d, additional %d) but the client query had %d", n, an, ns, ar, want))
+		for _, o := range opts {
+			if low := o.TTL & 0x00FFFFFF; low != wantFlags {
+				viol("opt-ttl-altered", fmt.Sprintf("an OPT in the reply has TTL field %#08x, mosdns' own would be %#x", o.TTL, wantFlags))
 			}
 		}
 	} else if want == 1 {
